@@ -6,5 +6,5 @@ ASSUME = ["sha1 is collision free; UFL signatures are renumbering invariant and 
 
 
 def run(tier, seed):
-    return run_components("C13", tier, seed, [finite.c13_option_signature, finite.c13_compute_signature, finite.c13_cross_process, finite.c13_module_names_distinct],
+    return run_components("C13", tier, seed, [finite.c13_option_signature, finite.c13_signature_across_configs, finite.c13_compute_signature, finite.c13_cross_process, finite.c13_module_names_distinct],
                           ASSUME, ["runtime/descriptors.py"])
